@@ -2,7 +2,7 @@
    decoder's only exception class is ValueError, the encoder's image survives bytes.strip(). *)
 From PV Require Import Base.Bytes Base.Outcome Model.Base64.
 From Coq Require Import ZifyBool ZifyNat ZifyN.
-Ltac Zify.zify_post_hook ::= Z.to_euclidean_division_equations.
+Local Ltac Zify.zify_post_hook ::= Z.to_euclidean_division_equations.
 Local Open Scope N_scope.
 
 (* ---- the alphabet ------------------------------------------------------------------------------- *)
